@@ -4,11 +4,12 @@ import PsModel.Spec.C05
 /-!
 Line-protocol front end of the C05 models.
 
-    C05 (<dec|wu> <legacy|new> checkNow hold holdFalse b0 ((t kind a) …))
-    checkNow, b0 : 0|1 ;  hold, holdFalse : none | milliseconds ;  kind : T | F | S | U
-    →  ok (model (t a) …) (spec (t a) …) (noties 0|1)
+    C05 (<dec|wu|decn|wun> <legacy|new> checkNow hold holdFalse b0 ((t kind a) …) timeout)
+    checkNow, b0 : 0|1 ;  hold, holdFalse, timeout : none | milliseconds ;  kind : T | F | S | U
+    →  ok (model ((t a) …)) (spec ((t a) …)) (noties 0|1)
 
-`dec`: all runs of the decorated function; `wu`: the first return of `task.wait_until` (at most one entry).
+`dec`: all runs of the decorated function; `wu`: the first return of `task.wait_until` (at most one entry; `(T timeout)`
+when the overall timeout wins); `decn` / `wun`: the trigger consists of any-change names only.
 -/
 namespace PsModel.C05
 open PsModel
@@ -31,23 +32,38 @@ def evt? : Sexp → Option Evt
 def showRuns (rs : List Run) : String :=
   "(" ++ " ".intercalate (rs.map (fun r => s!"({r.1} {r.2})")) ++ ")"
 
+def showRet : WRet → String
+  | .run r => s!"(({r.1} {r.2}))"
+  | .timeout t => s!"(({t} timeout))"
+
+/-- `names` = the trigger consists of any-change names only (`namesOnly`); `tmo` = overall timeout of `task.wait_until` -/
 def handle (x : Sexp) : String :=
   match x with
-  | .list [.atom api, .atom sub, cn, s, h, b, hs] =>
-    match cn.bool?, optNat? s, optNat? h, b.bool?, Sexp.listOf? evt? hs with
-    | some cn, some s, some h, some b0, some hist =>
-      let cfg : Cfg := ⟨cn, s, h⟩
-      let spec := Spec.holdRuns cfg b0 hist
-      let nt := if decide (Spec.NoTies cfg hist) then "1" else "0"
-      match api, sub with
-      | "dec", "legacy" => s!"ok (model {showRuns (Legacy.holdRuns cfg b0 hist)}) (spec {showRuns spec}) (noties {nt})"
-      | "dec", "new" => s!"ok (model {showRuns (New.holdRuns cfg b0 hist)}) (spec {showRuns spec}) (noties {nt})"
-      | "wu", "legacy" =>
-        s!"ok (model {showRuns (WaitUntil.firstReturn cfg b0 hist).toList}) (spec {showRuns spec.head?.toList}) (noties {nt})"
-      | "wu", "new" =>
-        s!"ok (model {showRuns (New.firstReturn cfg b0 hist).toList}) (spec {showRuns spec.head?.toList}) (noties {nt})"
-      | _, _ => "err bad-api"
-    | _, _, _, _, _ => "err parse"
+  | .list [.atom api, .atom sub, cn, s, h, b, hs, tm] =>
+    match cn.bool?, optNat? s, optNat? h, b.bool?, Sexp.listOf? evt? hs, optNat? tm with
+    | some cn, some s, some h, some b0, some hist, some tmo =>
+      let names := api == "decn" || api == "wun"
+      let cfg0 : Cfg := ⟨cn, s, h⟩
+      let cfg : Cfg := if names then namesOnly cfg0 else cfg0
+      let sb0 := if names then false else b0
+      let spec := Spec.holdRuns cfg sb0 hist
+      let nt := if decide (Spec.NoTies cfg hist) && (match tmo with | some T => hist.all (fun e => e.t != T) | none => true)
+                then "1" else "0"
+      let isWu := api == "wu" || api == "wun"
+      if !isWu && !(api == "dec" || api == "decn") then "err bad-api"
+      else if !(sub == "legacy" || sub == "new") then "err bad-subsystem"
+      else if !isWu then
+        let m := if sub == "legacy" then Legacy.holdRuns cfg b0 hist else New.holdRuns cfg b0 hist
+        s!"ok (model {showRuns m}) (spec {showRuns spec}) (noties {nt})"
+      else
+        match tmo with
+        | none =>
+          let m := if sub == "legacy" then WaitUntil.firstReturn cfg b0 hist else New.firstReturn cfg b0 hist
+          s!"ok (model {showRuns m.toList}) (spec {showRuns spec.head?.toList}) (noties {nt})"
+        | some T =>
+          let m := if sub == "legacy" then WaitUntil.firstReturnT T cfg b0 hist else New.firstReturnT T cfg b0 hist
+          s!"ok (model {showRet m}) (spec {showRet (cutT T spec.head?)}) (noties {nt})"
+    | _, _, _, _, _, _ => "err parse"
   | _ => "err bad-command"
 
 end PsModel.C05
